@@ -1072,6 +1072,19 @@ fn check_history(sb: &Sandbox, opts: &Opts, idx: usize) -> RunResult {
     RunResult { violations, stats: res.stats, fingerprint, nontrivial, sample }
 }
 
+/// The i-th project of the fault-enumeration phase. Every second one has a long function
+/// somewhere: its core nests deeper than the 128 levels below which JSON readers run with
+/// their default limits.
+fn enum_project(seed: u64, i: u64) -> Project {
+    let (mut proj, _, _, _) = project_for(seed ^ 0xfeed, i);
+    if i % 2 == 0 {
+        if let Some(pk) = proj.pkgs.iter_mut().rev().find(|pk| !pk.fns.is_empty()) {
+            pk.fns[0].noise = pk.fns[0].noise.max(90);
+        }
+    }
+    proj
+}
+
 /// fault_enumeration sub-space: every JSON leaf/container of every artifact of a built project,
 /// one single-field corruption each, offered to the operation that reads it.
 fn enumerate_fields(sb: &Sandbox, proj: &Project, ev_fields: &mut u64, accepted: &mut Vec<Violation>, procs: &mut u64, name: &str, max_per_file: usize, seed: u64) {
@@ -1097,6 +1110,36 @@ fn enumerate_fields(sb: &Sandbox, proj: &Project, ev_fields: &mut u64, accepted:
                         k += step;
                     }
                 }
+            }
+        }
+    }
+    // whole-file faults, once per artifact: bytes after the end of the document (a second
+    // document, the tail of a longer older generation)
+    for pi in 0..n {
+        for core in [false, true] {
+            sb.clear();
+            let mut w_ops = base.clone();
+            w_ops.push(Op::Corrupt { dir: 0, p: pi, core, fault: faults::ByteFault::TrailingGarbage });
+            let reader = if core {
+                Op::Link { cores: (0..n).map(|i| (0u8, i)).collect(), entropy: 5 }
+            } else {
+                match (0..n).find(|q| proj.pkgs[*q].imports.contains(&pi)) {
+                    Some(q) => Op::Build { p: q, entropy: 6, crash_at: None, use_alt_dir_first: false },
+                    None => continue,
+                }
+            };
+            w_ops.push(reader);
+            let res = run_history(sb, proj, &w_ops, false);
+            *procs += res.stats.procs;
+            *ev_fields += 1;
+            for f in res.findings {
+                accepted.push(Violation {
+                    property: PROP.into(),
+                    class: f.class.clone(),
+                    key: f.key.clone(),
+                    what: format!("{} [{}]", f.what, name),
+                    replay: json!({"kind": "c15-field", "project": name, "ops": w_ops, "pointer_index": 0, "class": f.class, "key": f.key, "sources": crate::props::c13::files_json(&proj.render())}),
+                });
             }
         }
     }
@@ -1199,7 +1242,7 @@ pub fn run(opts: &Opts) -> i32 {
         opts.workers,
         |w| Sandbox::new(&format!("c15e{w}")).expect("sandbox"),
         |sb, i| {
-            let (proj, _, _, _) = project_for(opts.seed ^ 0xfeed, i as u64);
+            let proj = enum_project(opts.seed, i as u64);
             let mut f = 0u64;
             let mut pr = 0u64;
             let mut acc = Vec::new();
@@ -1319,7 +1362,7 @@ pub fn replay(file: &Value) -> bool {
     let res = if r["kind"] == "c15-field" {
         let name = r["project"].as_str().unwrap_or("enum/0");
         let i: u64 = name.rsplit('/').next().and_then(|x| x.parse().ok()).unwrap_or(0);
-        let (proj, _, _, _) = project_for(file["seed"].as_u64().unwrap_or(0) ^ 0xfeed, i);
+        let proj = enum_project(file["seed"].as_u64().unwrap_or(0), i);
         run_history_exact_pointer(&sb, &proj, &ops, 0)
     } else {
         let (proj, _, _, _) = project_for(r["project_seed"].as_u64().unwrap_or(0), r["project_index"].as_u64().unwrap_or(0));
